@@ -170,8 +170,24 @@ def concrete_vals(spec, inputs):
     return vals
 
 
+def objectify(model):
+    """give the concretely prepared float64 annual-energy series (…kWh…) of the upstream components object dtype, so that code that updates
+    one of them in place with a symbolic factor executes (numpy refuses to cast an object result into a float64 array)
+    and the change is visible to the obligations instead of crashing the path."""
+    for comp in ('reserv', 'wellbores', 'surfaceplant'):
+        c = getattr(model, comp, None)
+        for k, p in list(vars(c).items()) if c is not None else ():
+            v = getattr(p, 'value', None)
+            if 'kwh' in k.lower() and gx.is_param(p) and isinstance(v, np.ndarray) and v.dtype == np.float64 and v.ndim == 1:
+                a = np.empty(len(v), dtype=object)
+                for i, x in enumerate(v):
+                    a[i] = float(x)
+                p.value = a.view(core.SymArray)
+
+
 def run_econ(model, symbolic=True):
     if symbolic:
+        objectify(model)
         binds = [(E, 'npf', npf_shim()), (E, 'math', MATH), (E, 'np', shim.NP),
                  (EA, 'npf', npf_shim()), (EA, 'np', shim.NP), (EA, 'math', MATH)]
         if type(model.economics).__module__.endswith('SBTEconomics'):
